@@ -1,5 +1,6 @@
 mod adapter;
 mod cells;
+mod craft;
 mod fw;
 mod job;
 mod pool;
@@ -154,6 +155,7 @@ fn main() {
             let mut extra = vec![];
             let r = match args.get(2).map(|s| s.as_str()) {
                 Some("miri") => sanit::miri_stage(&ctx, "dbg", 16),
+                Some("miri-large") => sanit::miri_stage_large(&ctx, "dbglarge"),
                 Some("miri-mt") => sanit::miri_stage_with(&ctx, "dbgmt", 16, ctx.scale(48), 3),
                 Some("tsan") => sanit::tsan_stage(&ctx, 1),
                 Some("asan") => sanit::asan_stage(&ctx),
